@@ -604,7 +604,10 @@ def walk_range(case, impl):
                 for d in dsts:
                     cp = {"src": c["n"], "dst": d, "msg": req[1], "t": c["t"], "kind": c["kind"], "judged": False,
                           "expect": None, "boundary": False, "range": rng[c["n"]]}
-                    if snap is not None and rng[c["n"]] >= 0:
+                    if snap is not None and math.isinf(rng[c["n"]]) and rng[c["n"]] > 0:
+                        # an unlimited range: every receiver is in range wherever it is
+                        cp.update(judged=True, expect=True, margin=float("-inf"), dist=0.0)
+                    elif snap is not None and rng[c["n"]] >= 0:
                         ps, pd = bitsv3(snap[c["n"]]), bitsv3(snap[d])
                         margin = exact_sq(ps, pd) - Fraction(rng[c["n"]]) ** 2
                         lattice = all(float(x).is_integer() for x in ps + pd)
@@ -678,7 +681,7 @@ class C09(SimCheck):
             cfg["duration"] = r.choice([4096, 6144, 10240])
         other = r.choice(QUADS)[3]
         scn["profile"]["ranges"] = [float(R), float(R), float(R), float(R + 1), float(R - 1), float(other), R + 0.5,
-                                    0.0, -1.0, -0.25, 1000.0]
+                                    0.0, -1.0, -0.25, 1000.0, float("inf")]
         return scn
 
     def run_impl(self, case):
